@@ -195,6 +195,13 @@ func (c *VCtx) callbackCall(fr *Frame, st *State, cc *ssa.CallCommon, f *Term, a
 	c.eng.assume("user callbacks do not re-enter the object that calls them and do not touch library-internal state")
 	c.noteCallback(fr, st, f, args)
 	c.bumpCalls(st, f)
+	for i, a := range args {
+		if t, ok := a.(*Term); ok {
+			hn := fmt.Sprintf("G:lastarg:%d:%s", i, t.Sort)
+			h := c.heap(st, hn, ArrSort(SRef, t.Sort))
+			c.setHeap(st, hn, Store(h, f, t))
+		}
+	}
 	// a cancel function obtained from context.WithCancel cancels its context
 	cx := c.cancelOf(f)
 	c.cancelCtx(st, cx, Not(Eq(cx, Null)))
@@ -213,7 +220,7 @@ func (c *VCtx) callbackCall(fr *Frame, st *State, cc *ssa.CallCommon, f *Term, a
 		return nil
 	}
 	// pure callbacks (declared in the contract): uninterpreted function of the callee and its arguments
-	if c.contract != nil && c.contract.Opts["pure-callbacks"] != "" {
+	if c.contract != nil && c.isPureCallback(cc) {
 		if tup, ok := rt.(*types.Tuple); !ok || tup.Len() == 0 {
 			sorts := []Sort{SRef}
 			ts := []*Term{f}
@@ -296,7 +303,7 @@ func (c *VCtx) applyContract(fr *Frame, st *State, cc *ssa.CallCommon, ct *FuncC
 	c.applyModifies(st, ct, callee, fv, args)
 	if c.mayCallBack(callee, 0, map[*ssa.Function]bool{}) {
 		for h := range c.heapSorts {
-			if h == "G:calltime" || strings.HasPrefix(h, "G:lastret:") {
+			if h == "G:calltime" || strings.HasPrefix(h, "G:lastret:") || strings.HasPrefix(h, "G:lastarg:") {
 				c.havocHeap(st, h)
 			}
 		}
@@ -306,6 +313,7 @@ func (c *VCtx) applyContract(fr *Frame, st *State, cc *ssa.CallCommon, ct *FuncC
 		res = c.freshVal("ret", rt)
 		c.knownAll(st, res)
 	}
+	c.lastCallFacts(st, pre, args)
 	sc2 := c.contractScope(callee, ct, fv, args, st, pre, res)
 	for _, e := range ct.Ensures {
 		// postconditions that talk about the callee's local variables are meaningful only inside the callee
@@ -721,4 +729,73 @@ func (c *VCtx) tryTranslate(sc *Scope, e Expr) (t *Term) {
 		}
 	}()
 	return c.translateBool(sc, e)
+}
+
+// isPureCallback: the contract option "pure-callbacks = f1 f2" names function-typed struct fields whose
+// values are pure functions (comparators, key extractors); "*" means every callback.
+func (c *VCtx) isPureCallback(cc *ssa.CallCommon) bool {
+	opt := c.contract.Opts["pure-callbacks"]
+	if opt == "" {
+		return false
+	}
+	if opt == "*" {
+		return true
+	}
+	name := ""
+	if u, ok := cc.Value.(*ssa.UnOp); ok {
+		if fa, ok := u.X.(*ssa.FieldAddr); ok {
+			name = deref(fa.X.Type()).Underlying().(*types.Struct).Field(fa.Field).Name()
+		}
+	}
+	for _, f := range strings.Fields(strings.ReplaceAll(opt, ",", " ")) {
+		if f == name {
+			return true
+		}
+	}
+	return false
+}
+
+// lastCallFacts: a known closure with a contract that was handed to the callee may have been called by it;
+// if it was (its call counter grew), its most recent call satisfied its postcondition: the clauses are
+// assumed for args = lastarg(f, i), result = lastret(f, j). Only for closures declared pure.
+func (c *VCtx) lastCallFacts(st, pre *State, args []Val) {
+	for _, a := range args {
+		fv, ok := a.(*FnVal)
+		if !ok {
+			continue
+		}
+		ct := c.eng.ContractOf(fv.Fn)
+		if ct == nil || !ct.Pure || len(ct.Ensures) == 0 {
+			continue
+		}
+		f := c.asTerm(fv)
+		var largs []Val
+		for i, p := range fv.Fn.Params {
+			s := sortOf(p.Type())
+			hn := fmt.Sprintf("G:lastarg:%d:%s", i, s)
+			h := c.heap(st, hn, ArrSort(SRef, s))
+			largs = append(largs, c.typed(TG(s, p.Type(), Select(h, f).S), p.Type()))
+		}
+		var res Val
+		rs := fv.Fn.Signature.Results()
+		var tup Tuple
+		for j := 0; j < rs.Len(); j++ {
+			s := sortOf(rs.At(j).Type())
+			hn := fmt.Sprintf("G:lastret:%d:%s", j, s)
+			h := c.heap(st, hn, ArrSort(SRef, s))
+			tup = append(tup, c.typed(TG(s, rs.At(j).Type(), Select(h, f).S), rs.At(j).Type()))
+		}
+		if len(tup) == 1 {
+			res = tup[0]
+		} else if len(tup) > 1 {
+			res = tup
+		}
+		called := Gt(Select(c.heap(st, "G:calls", ArrSort(SRef, SInt)), f), Select(c.heap(pre, "G:calls", ArrSort(SRef, SInt)), f))
+		sc := c.contractScope(fv.Fn, ct, fv, largs, st, st, res)
+		for _, e := range ct.Ensures {
+			if t := c.tryTranslate(sc, e.E); t != nil {
+				c.fact(Implies(And(st.pc, called), t))
+			}
+		}
+	}
 }
